@@ -36,6 +36,7 @@ import (
 	"context"
 	"encoding/json"
 	"fmt"
+	"hash/crc32"
 	"sort"
 	"strings"
 	"time"
@@ -1232,6 +1233,10 @@ func (s *seq) violate(sig, desc string) {
 
 func encDCs(dcs []string) string { return hx.EncSList(dcs) }
 
+func contentTag(doc *structs.ACLPolicy) uint32 {
+	return crc32.ChecksumIEEE([]byte(doc.Name + "\x00" + doc.Description + "\x00" + doc.Rules))
+}
+
 func (s *seq) putPolicy(id string, o genOpts) {
 	p := genPolicy(s.r, o, 4)
 	bad := false
@@ -1259,7 +1264,9 @@ func (s *seq) putPolicy(id string, o genOpts) {
 	if s.negSeen[id] {
 		s.negRecreated = "policy"
 	}
-	s.line(fmt.Sprintf("pol %s %d %d %s %s", hx.EncS(id), doc.ModifyIndex, tag, encDCs(dcs), encPolicy(p)), "ok")
+	// the model keys the parsed-policy cache by (content tag, datacenters, rule structure): the tag stands
+	// for what the content hash covers besides the structure (policy name = syntax, letter case of the text)
+	s.line(fmt.Sprintf("pol %s %d %d %s %s", hx.EncS(id), doc.ModifyIndex, contentTag(doc), encDCs(dcs), encPolicy(p)), "ok")
 	if p.mixedCase() {
 		s.run.Tag(s.kind + ":policy:mixed-case")
 	}
@@ -1735,7 +1742,7 @@ func aliasWitness(run *hx.Run) {
 			doc.SetHash(true)
 			s.b.policies[polIDs[i]] = doc
 			s.docs[polIDs[i]] = p
-			s.line(fmt.Sprintf("pol %s 1 0 - %s", hx.EncS(polIDs[i]), encPolicy(p)), "ok")
+			s.line(fmt.Sprintf("pol %s 1 %d - %s", hx.EncS(polIDs[i]), contentTag(doc), encPolicy(p)), "ok")
 		}
 		for i, pids := range [][]string{{polIDs[0], polIDs[1]}, {polIDs[0]}} {
 			t := &structs.ACLToken{AccessorID: fmt.Sprintf("acc-%d", i), SecretID: secrets[i]}
@@ -1784,7 +1791,7 @@ func negativeWitness(run *hx.Run) {
 		if s.negSeen[polIDs[0]] {
 			s.negRecreated = "policy"
 		}
-		s.line(fmt.Sprintf("pol %s 1 0 - %s", hx.EncS(polIDs[0]), encPolicy(p)), "ok")
+		s.line(fmt.Sprintf("pol %s 1 %d - %s", hx.EncS(polIDs[0]), contentTag(doc), encPolicy(p)), "ok")
 		if viaRole {
 			s.b.roles[roleIDs[0]] = &structs.ACLRole{ID: roleIDs[0], Name: "r-1", Policies: []structs.ACLRolePolicyLink{{ID: polIDs[0]}}}
 			if s.negSeen[roleIDs[0]] {
